@@ -87,6 +87,9 @@ func (ex *Exec) rootEnv(s *State, results []Val) *Env {
 		ex.bindResults(env, ex.fn, results)
 	}
 	ex.bindLets(env, ex.con)
+	for k, v := range s.Lets {
+		env.vars[k] = v
+	}
 	return env
 }
 
@@ -342,6 +345,11 @@ func (env *Env) evalIdent(name string) SV {
 		return SV{V: Scalar{TFalse}, T: types.Typ[types.Bool]}
 	case "nil":
 		return SV{IsNil: true}
+	case "ret":
+		if env.s.CurRet == nil {
+			env.fail("ret: no call result here")
+		}
+		return *env.s.CurRet
 	}
 	if env.pkg != nil {
 		if o := env.pkg.Scope().Lookup(name); o != nil {
@@ -847,6 +855,20 @@ func (env *Env) evalCall(e *E) SV {
 			sub := *env
 			sub.inOld = true
 			return sub.eval(args[0])
+		case "arg":
+			i := int(env.eval(args[0]).U.Int64())
+			if i >= len(env.s.CurArgs) {
+				env.fail("arg(%d): call has %d arguments", i, len(env.s.CurArgs))
+			}
+			return env.s.CurArgs[i]
+		case "ret":
+			if env.s.CurRet == nil {
+				env.fail("ret: no call result here")
+			}
+			return *env.s.CurRet
+		case "sameSlice":
+			a, b := env.term(env.eval(args[0])), env.term(env.eval(args[1]))
+			return SV{V: Scalar{And(Eq(SlBase(a), SlBase(b)), Eq(SlOff(a), SlOff(b)), Eq(SlLen(a), SlLen(b)))}, T: boolT}
 		case "len":
 			x := env.eval(args[0])
 			t := env.term(x)
@@ -992,8 +1014,14 @@ func (env *Env) callSpec(sf *SpecFn, args []*E) SV {
 		}
 	}
 	r := sub.eval(sf.Body)
-	if sf.Ret != nil && r.U != nil {
-		r = env.convert(r, env.resolveType(sf.Ret))
+	if sf.Ret != nil {
+		rt := env.resolveType(sf.Ret)
+		if r.U != nil {
+			r = env.convert(r, rt)
+		} else if sc, ok := r.V.(Scalar); ok && sc.T.Sort.IsBV() && sortOf(rt).IsBV() {
+			// results built from untyped constants (ite(c, 1, 2)) adopt the declared type
+			r = env.convert(r, rt)
+		}
 	}
 	return r
 }
